@@ -48,6 +48,9 @@ def gen_case(rng):
             junk.append([rnd_pos(rng, len(items)), kind, ctrl, rng.choice(['', '# header', 'password', 'x 3'])])
             continue
         junk.append([rnd_pos(rng, len(items)), kind, ctrl, rng.choice(['ab%scd', '%stail', 'head%s', 'a%sb%sc', 'head%s', '%s'])])
+    if rng.random() < 0.15:
+        # a line that ends in the DOS end-of-file mark (CTRL-Z, 0x1A) - a control character like the others
+        junk.append([rnd_pos(rng, len(items)), 'ctrl', '\x1a', rng.choice(['head%s', 'sunshine%s', '%s'])])
     case = {'items': [[p, k] for p, k in items], 'junk': junk, 'encoding': enc, 'eol': rng.choice(['\n', '\n', '\r\n']),
             'coverage': rng.choice([0.6, 1.0, 0.3]), 'ngram': rng.choice([2, 3, 4]), 'alphabet': 100, 'max_len': 21, 'hseed': rng.getrandbits(32)}
     r = rng.random()
